@@ -173,4 +173,45 @@ func init() {
 		Outside: []string{"TrustedResourceURLFormatFromFlag (differs only by flag.Value.String())", "more than two markers / arguments, longer tails", "maps with more than two entries (iteration orders explored: both orders of two entries)", "non-ASCII bytes in the format tail"},
 		Intrinsics: []string{"(*Regexp).ReplaceAllStringFunc: leftmost-first segmentation by the engine, callback executed by the interpreter", "(*Regexp).MatchString", "sort.Strings (permutation fork)", "strings.Join/IndexByte/IndexRune", "fmt.Fprintf %%%02x"},
 	})
+
+	cssAlphabet := "ab01 ;:{}()\"'\\\\/*@!<,.-+#%_\t\n\fuUrRlL"
+	reg(&Prop{
+		ID:    "C15",
+		Title: "StyleFromProperties emits exactly the declared CSS declarations, nothing else",
+		Harnesses: []HarnessSpec{
+			{Pkg: "safehtml", Name: "vHarness_C15_plain", Quick: []ParamRange{{"ascii", 1, 1}, {"field", 0, 14}, {"n", 0, 3}}, Thorough: []ParamRange{{"ascii", 1, 1}, {"field", 0, 14}, {"n", 0, 4}}, Reach: []string{"verbatim", "replaced"},
+				Desc: "each of the 15 plain fields alone: chunk is name:body; body is v or the innocuous value; CSS tokenizer sees one declaration; verbatim values lie in the documented alphabet"},
+			{Pkg: "safehtml", Name: "vHarness_C15_plain", Quick: []ParamRange{{"ascii", 1, 1}, {"field", 5, 5}, {"n", 4, 6}}, Thorough: []ParamRange{{"ascii", 1, 1}, {"field", 5, 5}, {"n", 5, 8}},
+				Desc: "color field, longer ASCII values"},
+			{Pkg: "safehtml", Name: "vHarness_C15_plain", Quick: []ParamRange{{"ascii", 1, 1}, {"field", 0, 0}, {"n", 4, 6}}, Thorough: []ParamRange{{"ascii", 1, 1}, {"field", 0, 0}, {"n", 5, 8}},
+				Desc: "display field, longer ASCII values"},
+			{Pkg: "safehtml", Name: "vHarness_C15_plain", Quick: []ParamRange{{"ascii", 0, 0}, {"field", 0, 5}, {"n", 1, 3}}, Thorough: []ParamRange{{"ascii", 0, 0}, {"field", 0, 5}, {"n", 1, 4}},
+				Filter: func(p map[string]int) bool { return p["field"] == 0 || p["field"] == 5 }, Desc: "display and color with arbitrary bytes"},
+			{Pkg: "safehtml", Name: "vHarness_C15_bgimage", Quick: []ParamRange{{"n1", 0, 2}, {"n2", -1, 1}}, Thorough: []ParamRange{{"n1", 0, 3}, {"n2", -1, 2}}, Reach: []string{"ran"},
+				Filter: func(p map[string]int) bool { return p["n1"]+p["n2"] <= 3 },
+				Desc: "background-image with 1 or 2 items: equals url(\"cssEscape(URLSanitized(u))\") per reference escaper; tokenizer sees one declaration with that many quoted url() functions"},
+			{Pkg: "safehtml", Name: "vHarness_C15_fontfamily", Quick: []ParamRange{{"ascii", 1, 1}, {"n", 0, 3}}, Thorough: []ParamRange{{"ascii", 1, 1}, {"n", 0, 4}}, Reach: []string{"ran"},
+				Desc: "font-family with a symbolic name and a generic name: one declaration, list order kept"},
+			{Pkg: "safehtml", Name: "vHarness_C15_fontfamily", Quick: []ParamRange{{"ascii", 0, 0}, {"n", 1, 2}}, Thorough: []ParamRange{{"ascii", 0, 0}, {"n", 1, 3}},
+				Desc: "font-family, arbitrary bytes"},
+			{Pkg: "safehtml", Name: "vHarness_C15_two", Quick: []ParamRange{{"n", 0, 2}}, Thorough: []ParamRange{{"n", 0, 3}}, Reach: []string{"ran"},
+				Desc: "two fields set (color, width): exactly as many declarations as non-empty fields"},
+		},
+		Probes: []ProbeSpec{
+			{Pkg: "safehtml", Name: "vProbe_C15_plain", NArgs: 2, Alphabet: cssAlphabet, MaxLen: 8, N: 1500, TestDir: ".", Extra: []string{"\x05", "\x00", "red", "a,b", "1px/2", "a/*b", "*/", "url(x)"}},
+			{Pkg: "safehtml", Name: "vProbe_C15_bg", NArgs: 2, Alphabet: cssAlphabet + "javscript:", MaxLen: 8, N: 600, Extra: []string{"javascript:x", "a\"b", "\u2028", "\x00", "a\nb", "x\\y", "</style>"}},
+			{Pkg: "safehtml", Name: "vProbe_C15_font", NArgs: 2, Alphabet: cssAlphabet, MaxLen: 8, N: 600, Extra: []string{"serif", "\"Times New Roman\"", "\"a", "a b", "\"\"", "\"x\""}},
+			{Pkg: "safehtml", Name: "vProbe_C15_refescape", NArgs: 1, Alphabet: cssAlphabet + "\x00\x7f\x80\xc2\x9f\xe2\x80\xa8", MaxLen: 6, N: 600, Extra: []string{"\u2028", "\u2029", "\u0085", "\x00"}},
+			{Pkg: "safehtml", Name: "vProbe_C15_implescape", NArgs: 1, Alphabet: cssAlphabet + "\x00\x7f\x80\xc2\x9f\xe2\x80\xa8", MaxLen: 6, N: 600, Extra: []string{"\u2028", "\u2029", "\u0085", "\x00"}},
+		},
+		Functions: []string{"safehtml.StyleFromProperties", "safehtml.filter", "safehtml.cssEscapeString", "safehtml.URLSanitized", "safehtml.isSafeURL",
+			"patterns identifierPattern, safeRegularPropertyValuePattern, safeEnumPropertyValuePattern from the current source"},
+		Bounds: map[string]string{
+			"quick":    "each plain field: ASCII values 0..3 bytes (color, display: 0..6; arbitrary bytes 1..3); background-image: 1 item of 0..2 bytes or 2 items of 0..1 bytes; font-family: name of 0..3 ASCII / 1..2 arbitrary bytes; two fields of 0..2 bytes",
+			"thorough": "plain fields 0..4 (color, display 0..8; arbitrary bytes 1..4); background-image items up to 3 bytes total; font-family 0..4 / 1..3; two fields of 0..3 bytes",
+		},
+		Outside: []string{"values longer than the bounds", "combinations of more than two fields (composition argued from: every chunk starts and ends in the tokenizer's initial state)", "list fields with more than two elements",
+			"CSS tokenizer: character-class view of non-ASCII (bytes >= 0x80 are name characters)"},
+		Intrinsics: []string{"fmt.Fprintf with %s and \\%06X", "(*bytes.Buffer) methods", "regexp MatchString", "range over string / WriteRune: symbolic UTF-8 codec", "strings.HasPrefix/HasSuffix from SSA"},
+	})
 }
